@@ -266,7 +266,13 @@ func (gb *gcpBalancer) initializeConfig(cfg *GCPBalancerConfig) {
 
 func (gb *gcpBalancer) enforceMinSize() {
 	for len(gb.scRefs) < int(gb.cfg.GetChannelPool().GetMinSize()) {
+		before := len(gb.scRefs)
 		gb.addSubConn()
+		if len(gb.scRefs) == before {
+			// NewSubConn failed (e.g. no resolved addresses yet). Do not spin;
+			// the pool will be (re)created on the next resolver update.
+			return
+		}
 	}
 }
 
